@@ -157,6 +157,7 @@ def run(ctx):
     trailing(ctx, P)
     from rules import stream as _s
     _s.eof_kind_protocol(ctx, P)
+    _s.packet_stream_end_at_boundary(ctx, P)
     _s.eof_helper_not_leaked(ctx, P)
     # no error of the integrity machinery is dropped on the way to the consumer (R-err of C09 restricted to the decryptor stack)
     from rules import stream
